@@ -4,7 +4,7 @@ Spec from the statement: a whole-line '--' or '#' comment contributes no code an
 of the statement assembler alone; inside a multi-line block comment every line contributes no code
 and is collected as comment text, the block ends with the line that contains '*/'."""
 from contracts.base import contract
-from contracts.lib import lexer_flags
+from contracts.lib import lexer_flags, parser_constant
 
 
 def comment_state(G, line, in_block):
@@ -45,3 +45,49 @@ class InsideBlockComment:
         if case["ends"]:
             self_.multi_line_comment = False
         return ""
+
+
+# ---------------------------------------------------------------------------------------------------------------------
+# the per-line comment scanner as a whole (pre_process_line, with catch_comment_or_process_line, process_inline_comments,
+# process_line_before_comment and process_in_comment inlined), outside a multi-line block comment, for lines without
+# quotes and without '=' (quoted text is C07's domain; the '=' padding is a separate step of the same function)
+CODE = r"[ !$-&(-)+-,.0-<>-~]*"                 # printable, none of  " # ' * - / =
+CODE_START = r"[!$-&(-)+-,.0-<>-~][ !$-&(-)+-,.0-<>-~]*"   # ... and not starting with a blank
+
+
+@contract
+class LineWithoutComment:
+    """a line that holds no comment marker is code as it stands; nothing is recorded as a comment"""
+    fn = "parser.Parser.pre_process_line"
+    props = ["C08", "C03", "C05"]
+    cases = {"code only": {}}
+
+    def build(G, case):
+        p = G.parser(lexer=lexer_flags(G), line=G.str("line", CODE, "  qty int NOT NULL,"), multi_line_comment=False,
+                     comments=G.oseq("comments so far", elem=lambda g, n: g.str(n)), block_comments=[],
+                     equal_without_space=parser_constant("equal_without_space"), in_comment=parser_constant("in_comment"))
+        return dict(args=[p])
+
+    def spec(case, self_):
+        return None
+
+
+@contract
+class TrailingDashComment:
+    """code -- text : the line is the code before the marker, the text after it is appended to the comments (in order);
+    nothing of the text stays in the line, nothing of the code goes to the comments"""
+    fn = "parser.Parser.pre_process_line"
+    props = ["C08", "C03", "C05"]
+    cases = {"code -- text": {}}
+
+    def build(G, case):
+        code, text = G.str("code", CODE_START, "qty int, "), G.str("text", CODE, " the quantity")
+        p = G.parser(lexer=lexer_flags(G), line=code + "--" + text, multi_line_comment=False,
+                     comments=G.oseq("comments so far", elem=lambda g, n: g.str(n)), block_comments=[],
+                     equal_without_space=parser_constant("equal_without_space"), in_comment=parser_constant("in_comment"))
+        return dict(args=[p], ghost=dict(code=code, text=text))
+
+    def spec(case, self_):
+        parts = self_.line.split("--")
+        self_.line = parts[0]
+        self_.comments.append(parts[1])
